@@ -44,6 +44,13 @@ THEOREMS = [
     "JanetModel.Props.C11.position_independent_of_scan",
     "JanetModel.Props.C11.escape_roundtrip",
     "JanetModel.Props.C11.stringend_reads_in_bounds",
+    "JanetModel.Props.C11.escape_roundtrip_buffer",
+    "JanetModel.Props.C11.jdn_roundtrip_string",
+    "JanetModel.Props.C11.jdn_roundtrip_buffer",
+    "JanetModel.Props.C11.jdn_roundtrip_keyword",
+    "JanetModel.Props.C11.jdn_roundtrip_symbol",
+    "JanetModel.Props.C11.jdn_roundtrip_const",
+    "JanetModel.Props.C11.jdn_roundtrip_number",
 ]
 ENV = dict(os.environ, ASAN_OPTIONS="detect_leaks=0:abort_on_error=0", UBSAN_OPTIONS="print_stacktrace=1")
 BAD_MARKS = ("PANIC", "SECOND-ERROR", "BADCOUNT", "SHORT", "NOTNIL", "BADWRAP", "NOT-A-STRING", "BADOP", "bad-op")
